@@ -35,7 +35,7 @@ fn typ_name(t: IceCandidateType) -> &'static str {
 
 #[derive(Clone, Copy, Debug, PartialEq)] pub enum User { None, Wrong, Ok }
 #[derive(Clone, Copy, Debug, PartialEq)] pub enum Mi { None, Corrupt, WrongKey, Ok }
-#[derive(Clone, Copy, Debug, PartialEq)] pub enum Sk { Udp0, Udp1, Tcp, Turn }
+#[derive(Clone, Copy, Debug, PartialEq)] pub enum Sk { Udp0, Udp1, Tcp, Turn, Shared, Listener }
 #[derive(Clone, Debug, PartialEq)]
 pub enum What {
     Req { user: User, mi: Mi, uc: bool, method: u8 },
@@ -45,7 +45,7 @@ pub enum What {
 #[derive(Clone, Debug)] pub struct Pkt { pub sock: Sk, pub src: u8, pub what: What }
 #[derive(Clone, Debug)]
 pub struct Case {
-    pub controlling: bool, pub state: u8, pub latching: bool, pub nominated: bool,
+    pub controlling: bool, pub state: u8, pub latching: bool, pub nominated: bool, pub webrtc: bool,
     pub locals: u8,              // bit0 udp0 host, bit1 udp1 host, bit2 tcp passive host, bit3 relay
     pub remotes: u8,             // bit i: peer i known (host, udp); bit3: tcp peer known (host, tcp); bit 4: peer0 entry is srflx with low priority
     pub selected: Option<(u8, u8)>,
@@ -55,10 +55,10 @@ pub struct Case {
 
 impl Case {
     pub fn text(&self) -> String {
-        let mut s = format!("c{},s{},l{},n{},L{},R{},S{},P{}", self.controlling as u8, self.state, self.latching as u8, self.nominated as u8,
-            self.locals, self.remotes, self.selected.map(|(a, b)| format!("{a}.{b}")).unwrap_or_else(|| "-".into()), self.pending);
+        let mut s = format!("c{},s{},l{},n{},L{},R{},S{},P{},w{}", self.controlling as u8, self.state, self.latching as u8, self.nominated as u8,
+            self.locals, self.remotes, self.selected.map(|(a, b)| format!("{a}.{b}")).unwrap_or_else(|| "-".into()), self.pending, self.webrtc as u8);
         for p in &self.pkts {
-            let sk = match p.sock { Sk::Udp0 => "u0", Sk::Udp1 => "u1", Sk::Tcp => "tcp", Sk::Turn => "turn" };
+            let sk = match p.sock { Sk::Udp0 => "u0", Sk::Udp1 => "u1", Sk::Tcp => "tcp", Sk::Turn => "turn", Sk::Shared => "sh", Sk::Listener => "li" };
             let w = match &p.what {
                 What::Req { user, mi, uc, method } => format!("req.{}.{}.{}.{}", *user as u8, *mi as u8, *uc as u8, method),
                 What::Resp { tx, error, method } => format!("resp.{tx}.{}.{method}", *error as u8),
@@ -78,7 +78,7 @@ impl Case {
             let (sk, rest) = p.split_once('<')?;
             let (src, w) = rest.split_once(':')?;
             let f: Vec<&str> = w.split('.').collect();
-            let sock = match sk { "u0" => Sk::Udp0, "u1" => Sk::Udp1, "tcp" => Sk::Tcp, _ => Sk::Turn };
+            let sock = match sk { "u0" => Sk::Udp0, "u1" => Sk::Udp1, "tcp" => Sk::Tcp, "sh" => Sk::Shared, "li" => Sk::Listener, _ => Sk::Turn };
             let what = match f[0] {
                 "req" => What::Req { user: [User::None, User::Wrong, User::Ok][f[1].parse::<usize>().ok()?], mi: [Mi::None, Mi::Corrupt, Mi::WrongKey, Mi::Ok][f[2].parse::<usize>().ok()?], uc: f[3] == "1", method: f[4].parse().ok()? },
                 "resp" => What::Resp { tx: f[1].parse().ok()?, error: f[2] == "1", method: f[3].parse().ok()? },
@@ -87,7 +87,7 @@ impl Case {
             pkts.push(Pkt { sock, src: src.parse().ok()?, what });
         }
         Some(Case { controlling: n(head[0])? == 1, state: n(head[1])?, latching: n(head[2])? == 1, nominated: n(head[3])? == 1, locals: n(head[4])?,
-            remotes: n(head[5])?, selected, pending: n(head[7])?, pkts })
+            remotes: n(head[5])?, selected, pending: n(head[7])?, webrtc: head.get(8).and_then(|h| n(h)).unwrap_or(1) == 1, pkts })
     }
 }
 
@@ -104,16 +104,20 @@ pub struct Env {
     peers: [std::net::UdpSocket; 4],    // peers[3]: same port as peers[0] on 127.0.0.2 (the latching condition)
     tcp_server: IceSocketWrapper, tcp_client: std::net::TcpStream, tcp_local: SocketAddr, tcp_peer: SocketAddr,
     turn_client: Arc<TurnClient>, turn_server: std::net::UdpSocket, relayed: SocketAddr,
+    shared: IceSocketWrapper, shared_addr: SocketAddr, _shared_reg: Box<dyn std::any::Any + Send>, listener: Arc<TcpListener>,
 }
 
 impl Env {
     pub fn new() -> Env {
         let rt = tokio::runtime::Builder::new_current_thread().enable_all().build().unwrap();
-        let (locals, peers, tcp_server, tcp_client, tcp_local, tcp_peer, turn_client, turn_server) = rt.block_on(async {
+        let (locals, peers, tcp_server, tcp_client, tcp_local, tcp_peer, turn_client, turn_server, shared, shared_addr, shared_reg, listener) = rt.block_on(async {
             let locals = [Arc::new(UdpSocket::bind("127.0.0.1:0").await.unwrap()), Arc::new(UdpSocket::bind("127.0.0.1:0").await.unwrap())];
             let sp = || { let s = std::net::UdpSocket::bind("127.0.0.1:0").unwrap(); s.set_nonblocking(true).unwrap(); s };
-            let p0 = sp();
-            let p3 = { let s = std::net::UdpSocket::bind(("127.0.0.2", p0.local_addr().unwrap().port())).expect("bind 127.0.0.2:<port of peer 0>"); s.set_nonblocking(true).unwrap(); s };
+            // peer 3 = same port as peer 0 on another loopback address (retry until such a pair can be bound)
+            let (p0, p3) = loop {
+                let p0 = sp();
+                if let Ok(s) = std::net::UdpSocket::bind(("127.0.0.2", p0.local_addr().unwrap().port())) { s.set_nonblocking(true).unwrap(); break (p0, s); }
+            };
             let peers = [p0, sp(), sp(), p3];
             let listener = TcpListener::bind("127.0.0.1:0").await.unwrap();
             let tcp_local = listener.local_addr().unwrap();
@@ -125,27 +129,29 @@ impl Env {
             let turn_server = sp();
             let tsock = Arc::new(UdpSocket::bind("127.0.0.1:0").await.unwrap());
             let turn_client = Arc::new(TurnClient::verif_new_udp(tsock, turn_server.local_addr().unwrap()));
-            std::mem::forget(listener);
-            (locals, peers, tcp_server, tcp_client, tcp_local, tcp_peer, turn_client, turn_server)
+            let (shared_addr, shared, shared_reg) = rustrtc::verif_hooks::ice::shared::acquire_udp("127.0.0.1:0".parse().unwrap(), "verifmuxufrag".into()).await.unwrap();
+            (locals, peers, tcp_server, tcp_client, tcp_local, tcp_peer, turn_client, turn_server, shared, shared_addr, shared_reg, Arc::new(listener))
         });
         let relayed: SocketAddr = "198.51.100.4:49152".parse().unwrap();
-        Env { rt, locals, peers, tcp_server, tcp_client, tcp_local, tcp_peer, turn_client, turn_server, relayed }
+        Env { rt, locals, peers, tcp_server, tcp_client, tcp_local, tcp_peer, turn_client, turn_server, relayed, shared, shared_addr, _shared_reg: shared_reg, listener }
     }
     fn peer_addr(&self, i: u8, sock: Sk) -> SocketAddr {
         if sock == Sk::Tcp { self.tcp_peer } else { self.peers[(i % 4) as usize].local_addr().unwrap() }
     }
     fn local_addr_of(&self, sock: Sk) -> SocketAddr {
-        match sock { Sk::Udp0 => self.locals[0].local_addr().unwrap(), Sk::Udp1 => self.locals[1].local_addr().unwrap(), Sk::Tcp => self.tcp_local, Sk::Turn => self.relayed }
+        match sock { Sk::Udp0 => self.locals[0].local_addr().unwrap(), Sk::Udp1 => self.locals[1].local_addr().unwrap(), Sk::Tcp | Sk::Listener => self.tcp_local, Sk::Turn => self.relayed, Sk::Shared => self.shared_addr }
     }
     fn wrapper(&self, sock: Sk) -> IceSocketWrapper {
         match sock { Sk::Udp0 => IceSocketWrapper::Udp(self.locals[0].clone()), Sk::Udp1 => IceSocketWrapper::Udp(self.locals[1].clone()),
-            Sk::Tcp => self.tcp_server.clone(), Sk::Turn => IceSocketWrapper::Turn(self.turn_client.clone(), self.relayed) }
+            Sk::Tcp => self.tcp_server.clone(), Sk::Turn => IceSocketWrapper::Turn(self.turn_client.clone(), self.relayed),
+            Sk::Shared => self.shared.clone(), Sk::Listener => IceSocketWrapper::TcpListener(self.listener.clone()) }
     }
     /// drain and return the last datagram that came back to the source of the packet
     fn reply(&mut self, sock: Sk, src: u8) -> Option<Vec<u8>> {
         let mut buf = vec![0u8; 4096];
         match sock {
-            Sk::Udp0 | Sk::Udp1 => { let mut last = None; while let Ok((n, _)) = self.peers[(src % 4) as usize].recv_from(&mut buf) { last = Some(buf[..n].to_vec()); } last }
+            Sk::Listener => None,
+            Sk::Udp0 | Sk::Udp1 | Sk::Shared => { let mut last = None; while let Ok((n, _)) = self.peers[(src % 4) as usize].recv_from(&mut buf) { last = Some(buf[..n].to_vec()); } last }
             Sk::Tcp => {
                 use std::io::Read;
                 // loopback TCP: the framed reply is queued by the time the write returned; allow a few retries
@@ -184,19 +190,21 @@ impl Obs {
 struct Built { transport: IceTransport, ufrag: String, pwd: String, init_tokens: String, pend: Vec<([u8; 12], tokio::sync::oneshot::Receiver<rustrtc::transports::ice::stun::StunDecoded>)>, cap: Arc<Capture> }
 
 fn build(env: &Env, c: &Case, rng_tx: &mut Rng) -> Built {
-    let cfg = rustrtc::RtcConfigurationBuilder::new().enable_latching(c.latching).build();
+    let cfg = rustrtc::RtcConfigurationBuilder::new().enable_latching(c.latching)
+        .transport_mode(if c.webrtc { rustrtc::TransportMode::WebRtc } else { rustrtc::TransportMode::Rtp }).build();
     let (transport, _runner) = IceTransport::new(cfg);
     transport.set_role(if c.controlling { IceRole::Controlling } else { IceRole::Controlled });
     let st = [IceTransportState::New, IceTransportState::Checking, IceTransportState::Connected][(c.state % 3) as usize];
     transport.verif_set_state(st);
     if c.nominated { transport.verif_set_nomination_complete(Some(true)); }
     let lp = transport.local_parameters();
-    let mut toks = format!("cfg,{},{},{},{},{},{}", if c.controlling { "controlling" } else { "controlled" }, state_name(st), c.latching as u8,
-        if c.nominated { "t" } else { "-" }, hex(lp.username_fragment.as_bytes()), hex(lp.password.as_bytes()));
+    let mut toks = format!("cfg,{},{},{},{},{},{},{}", if c.controlling { "controlling" } else { "controlled" }, state_name(st), c.latching as u8,
+        if c.nominated { "t" } else { "-" }, hex(lp.username_fragment.as_bytes()), hex(lp.password.as_bytes()), if c.webrtc { "webrtc" } else { "rtp" });
     let mut locals: Vec<IceCandidate> = vec![];
     for i in 0..2 { if c.locals & (1 << i) != 0 { let cand = IceCandidate::host(env.locals[i].local_addr().unwrap(), 1); transport.verif_add_local_udp(cand.clone(), env.locals[i].clone()); locals.push(cand); } }
     if c.locals & 4 != 0 { let cand = IceCandidate::host_tcp(env.tcp_local, 1, TcpType::Passive); transport.verif_add_local_candidate(cand.clone()); locals.push(cand); }
     if c.locals & 8 != 0 { let cand = chook::relay(env.relayed, 1, "udp"); transport.verif_add_local_candidate(cand.clone()); locals.push(cand); }
+    if c.locals & 16 != 0 { let cand = IceCandidate::host(env.shared_addr, 1); transport.verif_add_local_candidate(cand.clone()); locals.push(cand); }
     for l in &locals {
         toks.push_str(&format!(" loc,{},{},{},{},{},{}", addr3(&l.address), addr3(&l.base_address()), typ_name(l.typ), (l.transport == "tcp") as u8,
             (l.tcp_type == Some(TcpType::Passive)) as u8, l.priority));
@@ -270,7 +278,7 @@ pub fn exec(env: &mut Env, run: &mut Run, c: &Case, verbose: bool) {
     for p in &c.pkts {
         let src = env.peer_addr(p.src, p.sock);
         let (bytes, authentic) = packet_bytes(&b, p, &mut tx_rng);
-        let sk = match p.sock { Sk::Udp0 | Sk::Udp1 => "udp", Sk::Tcp => "tcp", Sk::Turn => "turn" };
+        let sk = match p.sock { Sk::Udp0 | Sk::Udp1 => "udp", Sk::Tcp => "tcp", Sk::Turn => "turn", Sk::Shared => "shared", Sk::Listener => "listener" };
         input.push_str(&format!(" pkt,{sk},{},{},{}", addr3(&env.local_addr_of(p.sock)), addr3(&src), hex(&bytes)));
         let before = outs.last().unwrap().clone();
         let fwd0 = *b.cap.0.lock();
@@ -285,7 +293,8 @@ pub fn exec(env: &mut Env, run: &mut Run, c: &Case, verbose: bool) {
         if verbose { println!("pkt {:?} -> {}", p, after.text()); }
         // ---- the property's oracle, on the implementation only
         let role = if c.controlling { "controlling" } else { "controlled" };
-        if let (What::Req { user, mi, .. }, Some(false)) = (&p.what, authentic) {
+        if let (What::Req { .. }, Some(false), false) = (&p.what, authentic, c.webrtc) { run.count("unauthenticated_request_in_rtp_mode_not_judged"); }
+        if let (What::Req { user, mi, .. }, Some(false), true) = (&p.what, authentic, c.webrtc) {
             let v = variant(*user, *mi);
             let mut eff = vec![];
             if after.rems != before.rems { eff.push("candidate-added"); }
@@ -307,9 +316,13 @@ pub fn exec(env: &mut Env, run: &mut Run, c: &Case, verbose: bool) {
         }
         // reply well-formedness (reference crate): Binding success, same transaction id, XOR-MAPPED = source, MI under the local password, FINGERPRINT
         if let (Some(rep), What::Req { .. }) = (&reply, &p.what) { reply_oracle(run, c, rep, &bytes, src, &b.pwd); }
-        if matches!(p.what, What::Req { .. }) && reply.is_none() && r.is_ok() { run.count("request_without_observed_reply"); }
-        if let Some(a) = authentic { run.case("auth", &format!("{} {} {}", hex(b.ufrag.as_bytes()), hex(b.pwd.as_bytes()), hex(&bytes)),
-            &format!("request auth={} uc={}", a as u8, matches!(p.what, What::Req { uc: true, .. }) as u8), true); }
+        if matches!(p.what, What::Req { .. }) && reply.is_none() && r.is_ok() && p.sock != Sk::Listener { run.count("request_without_observed_reply"); }
+        if let Some(a) = authentic {
+            // three-way: the real `stun_request_authenticated`, the generator's intent (= strict RFC reading), the model
+            let real = b.transport.verif_request_authenticated(&bytes);
+            if real != a { run.fail(&format!("auth-check:{}", if real { "accepts-forged-request" } else { "rejects-genuine-request" }), &c.text(), &hex(&bytes)); }
+            run.case("auth", &format!("{} {} {}", hex(b.ufrag.as_bytes()), hex(b.pwd.as_bytes()), hex(&bytes)),
+                &format!("request auth={} rfc={} uc={}", real as u8, a as u8, matches!(p.what, What::Req { uc: true, .. }) as u8), true); }
         outs.push(after);
     }
     let out = outs.iter().map(|o| o.text()).collect::<Vec<_>>().join(" ");
@@ -351,13 +364,61 @@ fn gen_what(rng: &mut Rng, pending: u8) -> What {
 
 fn gen_case(rng: &mut Rng) -> Case {
     let pending = rng.below(3) as u8;
-    let locals = (rng.below(16) as u8) | if rng.chance(3, 4) { 1 } else { 0 };
+    let locals = (rng.below(32) as u8) | if rng.chance(3, 4) { 1 } else { 0 };
     let remotes = rng.below(32) as u8;
     let nloc = locals.count_ones() as u8; let nrem = (remotes & 15).count_ones() as u8;
     let selected = if nloc > 0 && nrem > 0 && rng.chance(1, 2) { Some((rng.below(nloc as u64) as u8, rng.below(nrem as u64) as u8)) } else { None };
     let n = rng.range(1, 4) as usize;
-    let pkts = (0..n).map(|_| { let sock = *rng.pick(&[Sk::Udp0, Sk::Udp0, Sk::Udp0, Sk::Udp1, Sk::Tcp, Sk::Turn]); Pkt { sock, src: rng.below(4) as u8, what: gen_what(rng, pending) } }).collect();
-    Case { controlling: rng.chance(1, 2), state: rng.below(3) as u8, latching: rng.chance(1, 4), nominated: rng.chance(1, 4), locals, remotes, selected, pending, pkts }
+    let pkts = (0..n).map(|_| { let sock = *rng.pick(&[Sk::Udp0, Sk::Udp0, Sk::Udp0, Sk::Udp1, Sk::Tcp, Sk::Turn, Sk::Shared, Sk::Listener]); Pkt { sock, src: rng.below(4) as u8, what: gen_what(rng, pending) } }).collect();
+    Case { controlling: rng.chance(1, 2), state: rng.below(3) as u8, latching: rng.chance(1, 4), nominated: rng.chance(1, 4), webrtc: rng.chance(4, 5), locals, remotes, selected, pending, pkts }
+}
+
+/// `verify_message_integrity`, `username_from_stun_bytes`, `peer_ufrag_from_binding_request` and
+/// `stun_request_authenticated` on structurally valid, mutated and malformed datagrams vs the model.
+fn raw_auth_stream(env: &mut Env, run: &mut Run, rng: &mut Rng, thorough: bool) {
+    use super::c16::msg::{A, Spec, gen_ref_spec, rng_tx, utf8_of_len};
+    use rustrtc::verif_hooks::ice::inbound;
+    let (transport, _r) = IceTransport::new(rustrtc::RtcConfiguration::default());
+    let lp = transport.local_parameters();
+    let (uf, pw) = (lp.username_fragment.clone(), lp.password.clone());
+    let n = if thorough { 60_000 } else { 5_000 };
+    for i in 0..n {
+        let mut s: Spec = gen_ref_spec(rng);
+        s.attrs.retain(|a| !matches!(a, A::Unk(..)));
+        if rng.chance(3, 4) { s.cls = 0; }
+        if rng.chance(3, 4) { s.method = 0; }
+        let uname = match rng.below(8) { 0 => None, 1 => Some(format!("{uf}x:peer")), 2 => Some(uf.clone()), 3 => Some(format!(":{uf}")), 4 => Some(format!("peer:{uf}")),
+            5 => { let k = rng.below(20) as usize; Some(utf8_of_len(rng, k)) } _ => Some(format!("{uf}:{}", { let k = rng.below(12) as usize; utf8_of_len(rng, k) })) };
+        s.attrs.retain(|a| !matches!(a, A::Un(_)) || rng.chance(1, 6));
+        if let Some(u) = uname { let pos = rng.below(s.attrs.len() as u64 + 1) as usize; s.attrs.insert(pos, A::Un(u)); }
+        s.key = match rng.below(5) { 0 => None, 1 => Some(b"wrong".to_vec()), _ => Some(pw.as_bytes().to_vec()) };
+        s.tx = rng_tx(rng);
+        let mut bytes = s.encode_reference();
+        match rng.below(12) {
+            0 => { let i = rng.below(bytes.len() as u64) as usize; bytes[i] ^= 1 << rng.below(8); }
+            1 => { let k = rng.below(8) as usize + 1; let l = bytes.len(); bytes.truncate(l.saturating_sub(k)); }
+            2 => { let extra = rng.below(9) as usize; let e = rng.bytes(extra); bytes.extend_from_slice(&e); let nl = (bytes.len() - 20) as u16; bytes[2..4].copy_from_slice(&nl.to_be_bytes()); }
+            3 => { if bytes.len() > 24 { bytes[22..24].copy_from_slice(&(*rng.pick(&[0u16, 1, 19, 20, 21, 0xffff])).to_be_bytes()); } }
+            4 => { let k = rng.below(24) as usize; bytes = rng.bytes(k); }
+            _ => {}
+        }
+        let _ = i;
+        let key = if rng.chance(4, 5) { pw.as_bytes().to_vec() } else { b"wrong".to_vec() };
+        let t = transport.clone(); let by = bytes.clone(); let k2 = key.clone();
+        match crate::catch(std::panic::AssertUnwindSafe(move || (rustrtc::transports::ice::stun::verify_message_integrity(&by, &k2), inbound::username_from_stun_bytes(&by),
+            inbound::peer_ufrag_from_binding_request(&by), t.verif_request_authenticated(&by)))) {
+            Ok((vmi, un, pu, auth)) => {
+                run.case("vmi", &format!("{} {}", hex(&key), hex(&bytes)), &(vmi as u8).to_string(), vmi);
+                let o = |x: &Option<String>| x.as_ref().map(|s| format!("s{}", hex(s.as_bytes()))).unwrap_or_else(|| "n".into());
+                run.case("uname", &hex(&bytes), &format!("{} {}", o(&un), o(&pu)), un.is_some());
+                run.case("codeauth", &format!("{} {} {}", hex(uf.as_bytes()), hex(pw.as_bytes()), hex(&bytes)), &(auth as u8).to_string(), auth);
+                run.count(&format!("raw_auth_{}", auth as u8));
+            }
+            Err(p) => { run.fail("auth-check:panic", &format!("raw {}", hex(&bytes)), &p); }
+        }
+    }
+    let _ = env;
+    transport.stop();
 }
 
 pub fn run(args: &Args) {
@@ -373,33 +434,36 @@ pub fn run(args: &Args) {
     let mut run = Run::new("c06", &args.out);
     let mut rng = Rng::new(args.seed);
     // (1) exhaustive request matrix: user x mi x uc x known/unknown source x state x role x socket kind, one packet each
-    for controlling in [false, true] { for state in 0..3u8 { for sock in [Sk::Udp0, Sk::Tcp, Sk::Turn] { for known in [false, true] {
+    for controlling in [false, true] { for state in 0..3u8 { for sock in [Sk::Udp0, Sk::Tcp, Sk::Turn, Sk::Shared, Sk::Listener] { for known in [false, true] {
         for user in [User::None, User::Wrong, User::Ok] { for mi in [Mi::None, Mi::Corrupt, Mi::WrongKey, Mi::Ok] { for uc in [false, true] {
             let remotes = if !known { 0 } else if sock == Sk::Tcp { 8 } else { 1 };
-            let c = Case { controlling, state, latching: false, nominated: false, locals: 0b1101, remotes, selected: None, pending: 1,
+            let c = Case { controlling, state, latching: false, nominated: false, webrtc: true, locals: 0b11101, remotes, selected: None, pending: 1,
                 pkts: vec![Pkt { sock, src: 0, what: What::Req { user, mi, uc, method: 0 } }] };
             exec(&mut env, &mut run, &c, false);
         }}}
     }}}}
-    run.count_n("exhaustive_request_matrix", 2 * 3 * 3 * 2 * 3 * 4 * 2);
+    run.count_n("exhaustive_request_matrix", 2 * 3 * 5 * 2 * 3 * 4 * 2);
     // responses: solicited / unsolicited / replayed, success / error, all roles and states
     for controlling in [false, true] { for state in 0..3u8 { for error in [false, true] { for tx in [0u8, 1, 200] { for sock in [Sk::Udp0, Sk::Turn] {
         let r = Pkt { sock, src: 1, what: What::Resp { tx, error, method: 0 } };
-        let c = Case { controlling, state, latching: false, nominated: false, locals: 0b1001, remotes: 2, selected: None, pending: 2, pkts: vec![r.clone(), r.clone(), r] };
+        let c = Case { controlling, state, latching: false, nominated: false, webrtc: true, locals: 0b1001, remotes: 2, selected: None, pending: 2, pkts: vec![r.clone(), r.clone(), r] };
         exec(&mut env, &mut run, &c, false);
     }}}}}
     // latching and re-nomination corners
-    for controlling in [false, true] { for nominated in [false, true] { for uc in [false, true] { for user in [User::None, User::Ok] {
-        let c = Case { controlling, state: 2, latching: true, nominated, locals: 0b0011, remotes: 0b10011, selected: Some((0, 0)), pending: 0,
+    for webrtc in [true, false] { for controlling in [false, true] { for nominated in [false, true] { for uc in [false, true] { for user in [User::None, User::Ok] {
+        let c = Case { controlling, state: 2, latching: true, nominated, webrtc, locals: 0b0011, remotes: 0b10011, selected: Some((0, 0)), pending: 0,
             pkts: vec![Pkt { sock: Sk::Udp0, src: 1, what: What::Req { user, mi: if user == User::Ok { Mi::Ok } else { Mi::None }, uc, method: 0 } },
                        Pkt { sock: Sk::Udp1, src: 3, what: What::Req { user, mi: Mi::None, uc, method: 0 } }] };
         exec(&mut env, &mut run, &c, false);
-    }}}}
+    }}}}}
+    // the pre-fix witness in RTP mode (where unauthenticated probes are by design still honoured)
+    exec(&mut env, &mut run, &Case { controlling: false, state: 0, latching: false, nominated: false, webrtc: false, locals: 0b0001, remotes: 0, selected: None, pending: 0,
+        pkts: vec![Pkt { sock: Sk::Udp0, src: 0, what: What::Req { user: User::None, mi: Mi::None, uc: true, method: 0 } }] }, false);
+    raw_auth_stream(&mut env, &mut run, &mut rng, args.tier_thorough);
     // (2) random multi-packet cases
     let n = if args.tier_thorough { 40_000 } else { 2_500 };
     for _ in 0..n { let c = gen_case(&mut rng); exec(&mut env, &mut run, &c, false); }
     run.exhaustive = true;
-    run.notes.insert("exhaustive_scope".into(), serde_json::json!("request matrix USERNAME{none,wrong,correct} x MESSAGE-INTEGRITY{none,corrupted,wrong-key,correct} x ±USE-CANDIDATE x known/unknown source x {New,Checking,Connected} x {controlled,controlling} x {UDP, accepted TCP stream, TURN relay}; responses {pending, second pending, unknown id} x {success,error} x 3 repetitions x roles x states"));
-    run.notes.insert("socket_kinds_not_driven".into(), serde_json::json!("SharedUdp (ice_udp_mux) and TcpListener wrappers are modelled (same code path as Udp for these handlers) but not driven: their handles cannot be constructed outside the crate"));
+    run.notes.insert("exhaustive_scope".into(), serde_json::json!("request matrix USERNAME{none,wrong,correct} x MESSAGE-INTEGRITY{none,corrupted,wrong-key,correct} x ±USE-CANDIDATE x known/unknown source x {New,Checking,Connected} x {controlled,controlling} x {UDP, shared UDP mux, TCP listener, accepted TCP stream, TURN relay}; responses {pending, second pending, unknown id} x {success,error} x 3 repetitions x roles x states"));
     run.finish();
 }
